@@ -332,7 +332,11 @@ def generate(rng, focus, tier="quick"):
                 same = j > 0 and rng.random() < 0.7
                 if not same:
                     oid = rng.randrange(1000)
-                emit({"k": "pftxn", "pid": pid, "asset": a, "qty": _qty(rng) if rng.random() < 0.7 else rng.choice([100, -100, 40, -40]),
+                qv = _qty(rng) if rng.random() < 0.7 else rng.choice([100, -100, 40, -40])
+                if "C03" in focus and rng.random() < 0.3:
+                    # C03 quantifies over real-valued quantities: dyadic fractions keep float arithmetic exact
+                    qv = rng.choice([0.5, -0.5, 0.25, 2.5, -2.5, 100.5, -100.5, 0.75, -0.75, 10.25])
+                emit({"k": "pftxn", "pid": pid, "asset": a, "qty": qv,
                       "price": max(0.01, round(sh["quotes"][a] * math.exp(rng.gauss(0, 0.05)), 4)),
                       "comm": (rng.choice([0.0, 1.0, -1.0, 2.5, -2.5, 1.0, -1.0, round(rng.uniform(-20, 50), 2)])
                                if "C03" in focus else        # C03 quantifies over all real-valued commissions (rebates)
@@ -546,6 +550,10 @@ def _resolve_qty(spec, s, m, pid, asset):
     # pending orders in the same asset count toward what will be held when this order fills
     if p is not None:
         net += sum(o["qty"] for o in p.pending if o["asset"] == asset)
+    if float(net) != int(net):
+        # a fractional holding (direct transactions, C03 only) cannot be closed by a whole-number order
+        net = int(net) or 1
+    net = int(net)
     if spec["rel"] == "close":
         return -net if net != 0 else 7
     if spec["rel"] == "flip":
@@ -1092,6 +1100,8 @@ class Exec(object):
         pid, a, q = c["pid"], c["asset"], c["qty"]
         if float(q) == int(q):
             q = int(q)          # numpy integers behave, but the ledger is exact Python arithmetic
+        else:
+            q = frac(q)         # fractional quantities (C03 only): exact rational
         p = m.pfs[pid]
         price, comm = c["price"], c["comm"]
         o = self.orders.get(c["oid"])
@@ -1228,7 +1238,9 @@ class Exec(object):
         tstamp = ts(when)
         if op.get("ahead"):
             ctx.fault("transaction_stamped_ahead_of_broker_clock")
-        txn = Transaction(a, int(op["qty"]), tstamp, float(op["price"]), oid, commission=float(op["comm"]))
+        qv = op["qty"]
+        qv = int(qv) if float(qv) == int(qv) else float(qv)
+        txn = Transaction(a, qv, tstamp, float(op["price"]), oid, commission=float(op["comm"]))
         ok, exc = self._call(s.broker.portfolios[pid].transact_asset, txn)
         ctx.event("pftxn", pid, a, op["qty"], float(op["price"]), float(op["comm"]), ok)
         if not ok:
